@@ -126,28 +126,32 @@ impl<'a> Interp<'a> {
 
     /// Would evaluating `e` in the current state panic? (used for the order leniencies; runs on a
     /// copy of the state)
-    fn probe_panic(&mut self, e: &Expr) -> Option<Panic> {
+    /// (a probe that runs into a known finding or an ambiguity makes the whole execution one: the
+    /// code under test may report that operation instead of the failure that was found first)
+    fn probe_panic(&mut self, e: &Expr) -> R<Option<Panic>> {
         let saved = self.scopes.clone();
         let steps = self.steps;
         let r = self.expr(e);
         self.scopes = saved;
         self.steps = steps;
         match r {
-            Err(Stop::Panic(p)) => Some(p),
-            _ => None,
+            Err(Stop::Panic(p)) => Ok(Some(p)),
+            Err(other) => Err(other),
+            Ok(_) => Ok(None),
         }
     }
 
     /// Would evaluating the place (with the state as it is now) fail? (state is restored)
-    fn probe_place_panic(&mut self, var: &str, accs: &[Acc], span: Span) -> Option<Panic> {
+    fn probe_place_panic(&mut self, var: &str, accs: &[Acc], span: Span) -> R<Option<Panic>> {
         let saved = self.scopes.clone();
         let steps = self.steps;
         let r = self.eval_place(var, accs, span);
         self.scopes = saved;
         self.steps = steps;
         match r {
-            Err(Stop::Panic(p)) => Some(p),
-            _ => None,
+            Err(Stop::Panic(p)) => Ok(Some(p)),
+            Err(other) => Err(other),
+            Ok(_) => Ok(None),
         }
     }
 
@@ -177,7 +181,7 @@ impl<'a> Interp<'a> {
                     let rhs = match self.expr(value) {
                         Ok(v) => v,
                         Err(Stop::Panic(mut p)) => {
-                            if let Some(pp) = self.probe_place_panic(var, accs, span) {
+                            if let Some(pp) = self.probe_place_panic(var, accs, span)? {
                                 for a in pp.alts {
                                     if !p.alts.contains(&a) {
                                         p.alts.push(a);
@@ -209,7 +213,7 @@ impl<'a> Interp<'a> {
                         // reported instead of an earlier out-of-bounds index
                         for a in accs {
                             if let Acc::Index(i) = a {
-                                if let Some(pi) = self.probe_panic(i) {
+                                if let Some(pi) = self.probe_panic(i)? {
                                     for alt in pi.alts {
                                         if !p.alts.contains(&alt) {
                                             p.alts.push(alt);
@@ -218,7 +222,7 @@ impl<'a> Interp<'a> {
                                 }
                             }
                         }
-                        if let Some(pv) = self.probe_panic(value) {
+                        if let Some(pv) = self.probe_panic(value)? {
                             for a in pv.alts {
                                 if !p.alts.contains(&a) {
                                     p.alts.push(a);
